@@ -133,8 +133,76 @@ def run(ctx):
                 if o != impl[idx[j]]:
                     ctx.fail("oracle:not-idempotent", "escaping the escaped text changed it: %s -> %s" % (l2[j], o), {"line": l2[j], "impl_output": o})
             ctx.count("idempotence-on-impl", len(l2), len(set(l2)))
+    template_paths(ctx, drv, h_on, h_off, inputs)
     ctx.assumptions += ["code units modelled as Nat; widths 1/2/4/wchar_t exercised by the harness",
                         "template print paths reach the escaper only through StringUtils::EscapeHTMLSpecialChars (checked by rendering in C01/C02 harness)"]
+
+
+MODES = ["var", "ptr", "arr", "loopval", "loopkey", "echo", "raw", "rawptr", "svar"]
+
+
+def template_paths(ctx, drv, h_on, h_off, inputs):
+    """Every tag position that prints text (C03): the string behind a {var:} — direct, behind a
+    pointer-to-value, array item, loop value, loop key, the echoed source of an unresolved tag,
+    a super-variable phrase and its sub-variable — must come out exactly as the escaper model
+    says (verbatim for {raw:} and when auto-escape is off)."""
+    rng = ctx.rng
+    pool = [u for u in inputs if len(u) <= 12]
+    sample = rng.sample(pool, min(len(pool), 2500 if not ctx.thorough else 40000))
+    sample += [[38], [60], [62], [34], [39], [38, 97, 109, 112, 59], [38, 97, 109, 112], [60, 38], []]
+    for auto, exe in ((1, h_on), (0, h_off)):
+        lines, exp_src = [], []
+        for k, u in enumerate(sample if auto == 1 else sample[::4]):
+            w = ("1", "2", "4")[k % 3]
+            for m in MODES:
+                if m == "loopkey" and not u:
+                    continue
+                if m == "echo" and any(x in (123, 125, 91, 93, 0) for x in u):
+                    continue   # the name would end the tag early / be an index expression
+                lines.append("tpl %d %s %s %s" % (auto, w, m, core.show_units(u)))
+                if m == "echo":
+                    src = [123, 118, 97, 114, 58] + u + [125]
+                    exp_src.append(("esc", [src]))
+                elif m in ("raw", "rawptr"):
+                    exp_src.append(("id", [u]))
+                elif m == "svar":
+                    exp_src.append(("esc", [u, u]))
+                else:
+                    exp_src.append(("esc", [u]))
+        impl, faults = core.run_lines_parallel(exe, lines, jobs=12)
+        for i, kind, err in faults:
+            ctx.fail("fault:" + kind, "sanitizer fault while rendering " + lines[i], {"line": lines[i], "stderr": err})
+        # expected text from the Lean model (escape of each piece, concatenated)
+        mlines, owner = [], []
+        for i, (kind, parts) in enumerate(exp_src):
+            for pt in parts:
+                mlines.append("esc %d 1 %s" % (auto if kind == "esc" else 0, core.show_units(pt)))
+                owner.append(i)
+        mout, _ = core.run_lines_parallel(drv, mlines, jobs=12, env=None)
+        pieces = [[] for _ in lines]
+        for o, out in zip(owner, mout):
+            pieces[o] += [] if out == "-" else out.split(",")
+        model = [",".join(p) if p else "-" for p in pieces]
+        bad = ctx.correspond("template-print-paths(auto=%d)" % auto, lines, impl, model,
+                             nontrivial=lambda l: any(t in ("38", "60", "62", "34", "39") for t in l.split(" ")[4].split(",")))
+        # a disagreement here is a C03 failure whenever the Lean predicates reject the real output
+        olines, idx = [], []
+        for i in bad:
+            if impl[i].startswith("FAULT"):
+                continue
+            kind, parts = exp_src[i]
+            if kind == "id" or auto == 0:
+                ctx.fail("not-verbatim", "text that must be emitted unchanged was altered: %s -> %s" % (lines[i], impl[i]), {"line": lines[i], "impl_output": impl[i]})
+            elif len(parts) == 1:
+                olines.append("escoracle 1 1 %s %s" % (core.show_units(parts[0]), impl[i])); idx.append(i)
+            else:
+                ctx.fail("oracle:svar", "super-variable output differs from the escaped phrase and value: %s -> %s" % (lines[i], impl[i]), {"line": lines[i], "impl_output": impl[i]})
+        if olines:
+            verdicts, _ = core.run_lines_parallel(drv, olines, jobs=4, env=None)
+            for j, v in enumerate(verdicts):
+                if v != "ok":
+                    i = idx[j]
+                    ctx.fail("oracle:" + v, "C03 predicate '%s' fails on rendered output: %s -> %s" % (v, lines[i], impl[i]), {"line": lines[i], "impl_output": impl[i], "predicate": v})
 
 
 FINISH = dict(level="proof",
